@@ -1169,3 +1169,41 @@ pub fn table_file_len(options: &DbOptions) -> u64 {
     let path = crate::file_names::FileNameHandler::new(options.db_path().to_string()).get_table_file_path(1);
     options.filesystem_provider().open_file(&path).ok().and_then(|f| f.len().ok()).unwrap_or(0)
 }
+
+/// Numbers of the table files currently in the database directory.
+pub fn table_numbers(options: &DbOptions) -> Vec<u64> {
+    let fnh = crate::file_names::FileNameHandler::new(options.db_path().to_string());
+    let mut out = vec![];
+    if let Ok(files) = options.filesystem_provider().list_dir(&fnh.get_data_dir()) {
+        for f in files {
+            if let Ok(crate::file_names::ParsedFileType::TableFile(n)) = crate::file_names::FileNameHandler::get_file_type_from_name(&f) {
+                out.push(n);
+            }
+        }
+    }
+    out.sort();
+    out
+}
+
+/// Rewrite table file `n` with the byte at `offset` inverted. Returns false if the file cannot be read or rewritten.
+pub fn flip_table_byte(options: &DbOptions, n: u64, offset: usize) -> bool {
+    let fs = options.filesystem_provider();
+    let path = crate::file_names::FileNameHandler::new(options.db_path().to_string()).get_table_file_path(n);
+    let mut bytes = vec![];
+    {
+        let f = match fs.open_file(&path) {
+            Ok(f) => f,
+            Err(_) => return false,
+        };
+        let len = f.len().unwrap_or(0) as usize;
+        bytes.resize(len, 0);
+        if f.read_from(&mut bytes, 0).is_err() || offset >= len {
+            return false;
+        }
+    }
+    bytes[offset] ^= 0xff;
+    match fs.create_file(&path, false) {
+        Ok(mut f) => f.append(&bytes).is_ok(),
+        Err(_) => false,
+    }
+}
